@@ -169,7 +169,7 @@ func (g *c03Gen) expr(depth int, inFin bool, inBody bool) *n3 {
 		}
 		return g.constNode()
 	}
-	w := []int{4, 3, 3, 2, 3, 2, 4, 3, 1, 2, 1, 1}
+	w := []int{4, 3, 3, 2, 3, 2, 4, 3, 1, 2, 1, 1, 1}
 	if depth >= 5 || g.nodes > 60 {
 		w[5], w[6], w[7], w[8] = 0, 0, 0, 0
 	}
@@ -183,6 +183,10 @@ func (g *c03Gen) expr(depth int, inFin bool, inBody bool) *n3 {
 	case 11:
 		c := c03MacroThrowConsts[g.tp.Draw(LaneWork, len(c03MacroThrowConsts))]
 		return &n3{Kind: "mthrow", Src: c[0], Val: c[1]}
+	case 12:
+		// a closure made inside a handler reads the catch variable after the handler has returned and another
+		// handler has run
+		return &n3{Kind: "cclosure", Kids: []*n3{g.constNode(), g.constNode()}}
 	case 0:
 		return g.probe(inBody)
 	case 1:
@@ -287,6 +291,8 @@ func (n *n3) render() string {
 		return n.symbol()
 	case "tsym":
 		return "(trace! (list :" + map[string]string{"e": "e", "_": "u"}[n.symbol()] + " " + n.symbol() + "))"
+	case "cclosure":
+		return "(let [f9 (try (throw " + n.Kids[0].render() + ") (catch e (fn [] e)))] (do (try (throw " + n.Kids[1].render() + ") (catch e e)) (f9)))"
 	case "mprobe":
 		return "(m-probe " + strconv.Itoa(n.Site) + ")"
 	case "mthrow":
@@ -521,6 +527,8 @@ func (m *m3) eval(n *n3) (string, bool, string) {
 		return m.failure(effectiveFault(pf, false, false), n.Site)
 	case "mthrow":
 		return "", true, n.Val
+	case "cclosure":
+		return n.Kids[0].Val, false, ""
 	case "tsym":
 		tag := ":e"
 		if n.symbol() == "_" {
@@ -647,8 +655,56 @@ const c03Setup = `(do
   (def call3 (fn [f] (call1 (fn [] (call1 f)))))
   nil)`
 
+// c03Soak: one evaluation that recovers ten thousand panics of a raw builtin, each inside a try body, and then one
+// more: what the last handler receives must be what the first one would have received (nothing may be left
+// behind by a recovered panic).
+func c03Soak(tp *Tape, out *RunOut) *RunOut {
+	out.Stats["programs:soak-of-recovered-panics"]++
+	mk := func() types.EnvType {
+		e := NewEnv()
+		e.Set(types.Symbol{Val: "raw-panic!"}, types.Func{Fn: func(ctx context.Context, a []types.MalType) (types.MalType, error) {
+			panic(c03Sentinels[77])
+		}})
+		e.Set(types.Symbol{Val: "raw-fail!"}, types.Func{Fn: func(ctx context.Context, a []types.MalType) (types.MalType, error) {
+			return nil, c03Sentinels[78]
+		}})
+		return e
+	}
+	run := func(src string) string {
+		ctx, cancel := context.WithTimeout(context.Background(), time.Hour)
+		defer cancel()
+		spy := &stepSpy{budget: 1500000, cancel: cancel}
+		simhook.Install(spy)
+		res, err := lisp.EVAL(ctx, mustRead(src), mk())
+		simhook.Install(nil)
+		if spy.runaway {
+			return "DOES-NOT-TERMINATE"
+		}
+		if err != nil {
+			return "THROWN " + thrown03(err)
+		}
+		return canon03(res)
+	}
+	kind := []string{"(raw-panic!)", "(raw-fail!)", "(throw 7)", "(defmacro bad-m 5)"}[tp.Draw(LaneWork, 4)]
+	n := 10050 + tp.Draw(LaneWork, 200)
+	last := "(list (try " + kind + " (catch e e)) (try (raw-panic!) (catch e e)) (try (+ 1 2) (catch e e)))"
+	want := run(last)
+	src := "(do (def soak (fn [n] (if (> n 0) (do (try " + kind + " (catch e nil)) (soak (- n 1))) :done))) (soak " + strconv.Itoa(n) + ") " + last + ")"
+	got := run(src)
+	if got != want {
+		out.Violations = append(out.Violations, Violation{"C03.result", "changed-after-many-recovered-failures", "after " + strconv.Itoa(n) + " failures of " + kind + " caught by try forms, the same try forms give\n    " + got + "\n  instead of\n    " + want + "\n  program: " + src})
+	}
+	out.Nontrivial = true
+	hsh := fnv(1469598103934665603, src)
+	out.ILHash, out.EvHash, out.Tasks = hsh, hsh, 1
+	return out
+}
+
 func (c03) Run(tp *Tape, opt RunOpt) *RunOut {
 	out := &RunOut{prop: "C03", Stats: map[string]int64{}}
+	if tp.Chance(LaneWork, 1, 400) {
+		return c03Soak(tp, out)
+	}
 	g := &c03Gen{tp: tp}
 	root := g.try(0, false)
 	// scope probe after the form: the catch variable must not be visible there
